@@ -32,6 +32,33 @@ type Observer = Box<dyn FnMut(AllocEvent)>;
 thread_local! {
     static ALLOC_OBSERVER: RefCell<Option<Observer>> = const { RefCell::new(None) };
     static SCAN: RefCell<(u64, Option<u64>)> = const { RefCell::new((0, None)) };
+    static LIST: RefCell<(u64, Option<u64>)> = const { RefCell::new((0, None)) };
+}
+
+/// Resets the list step counter and sets a limit. A walk over bucket lists (`add`, `cancel`,
+/// dropping a bucket) that takes more steps than the limit since the last reset panics,
+/// instead of spinning on a cyclic list.
+pub fn list_reset(limit: Option<u64>) {
+    LIST.with(|cell| *cell.borrow_mut() = (0, limit));
+}
+
+/// Returns the number of list steps since the last reset.
+#[must_use]
+pub fn list_steps() -> u64 {
+    LIST.with(|cell| cell.borrow().0)
+}
+
+pub(super) fn list_step() {
+    LIST.with(|cell| {
+        let mut list = cell.borrow_mut();
+        list.0 += 1;
+        if let Some(limit) = list.1 {
+            assert!(
+                list.0 <= limit,
+                "verif: walk over a bucket list exceeded the step limit of {limit}"
+            );
+        }
+    });
 }
 
 /// Installs (or removes) the allocator observer of this thread, returning the previous one.
